@@ -332,6 +332,78 @@ pub fn run(ctx: &mut Ctx) {
     one(ctx, &lang, "corpus:D9", "slice", &sv("abc"), &[iv(i64::MIN), iv(i64::MAX)]);
     one(ctx, &lang, "corpus:trunc-flag", "truncate", &sv("Here is a RUST: 🇷🇺🇸🇹."), &[iv(20)]);
 
+    // ---- the context-sensitive lower-casing of capital sigma (not in the Lean model: judged here by
+    // a reference written from the Unicode rule `Final_Sigma`: Σ becomes ς when it follows a cased
+    // letter (case-ignorable characters in between skipped) and is not followed by one, σ otherwise) ----
+    {
+        const SA: [char; 10] = ['Σ', 'σ', 'ς', 'Α', 'a', ' ', '.', '\u{301}', '-', '1'];
+        let cased = |c: char| matches!(c, 'Σ' | 'σ' | 'ς' | 'Α' | 'a');
+        let ignorable = |c: char| matches!(c, '.' | '\u{301}');
+        let then_cased = |it: &mut dyn Iterator<Item = char>| -> bool {
+            for c in it {
+                if ignorable(c) {
+                    continue;
+                }
+                return cased(c);
+            }
+            false
+        };
+        let reference = |s: &[char]| -> String {
+            let mut o = String::new();
+            for (i, c) in s.iter().enumerate() {
+                match c {
+                    'Σ' => {
+                        let before = then_cased(&mut s[..i].iter().rev().copied());
+                        let after = then_cased(&mut s[i + 1..].iter().copied());
+                        o.push(if before && !after { 'ς' } else { 'σ' });
+                    }
+                    'Α' => o.push('α'),
+                    c => o.push(*c),
+                }
+            }
+            o
+        };
+        let maxlen = if thorough { 5 } else { 4 };
+        let mut idx: Vec<usize> = vec![0];
+        loop {
+            let chars: Vec<char> = idx.iter().map(|i| SA[*i]).collect();
+            let input: String = chars.iter().collect();
+            let want = reference(&chars);
+            let got = apply(&lang, "downcase", &sv(&input), &[]);
+            let ok = obs_str(&got).map(|g| g == want).unwrap_or(false);
+            let up_want: String = chars.iter().map(|c| match c { 'σ' | 'ς' => 'Σ', 'a' => 'A', c => *c }).collect();
+            let up = apply(&lang, "upcase", &sv(&input), &[]);
+            let ok_up = obs_str(&up).map(|g| g == up_want).unwrap_or(false);
+            ctx.emit(format!("law sigma downcase-final-sigma {} {}", if ok { "ok" } else { "fail" }, xs(&format!("downcase of {:?}: want {:?}, got {}", input, want, got.tokens()))));
+            if !ok_up {
+                ctx.emit(format!("law sigma upcase-sigma fail {}", xs(&format!("upcase of {:?}: want {:?}, got {}", input, up_want, up.tokens()))));
+            }
+            // next index vector (odometer; lengths 1..=maxlen)
+            let mut j = 0;
+            loop {
+                if j == idx.len() {
+                    idx.push(0);
+                    break;
+                }
+                idx[j] += 1;
+                if idx[j] < SA.len() {
+                    break;
+                }
+                idx[j] = 0;
+                j += 1;
+            }
+            if idx.len() > maxlen {
+                break;
+            }
+        }
+        for w in ["ὈΔΥΣΣΕΎΣ", "ΚΑΛΗΜΕΡΑ ΚΟΣΜΟΣ", "ΣΑΣ", "Σ", "ΑΣ.", "ΑΣ.Α", "ΑΣ'", "AΣ", "1Σ"] {
+            let got = apply(&lang, "downcase", &sv(w), &[]);
+            let want = w.to_lowercase();
+            let ok = obs_str(&got).map(|g| g == want).unwrap_or(false);
+            ctx.emit(format!("law sigma downcase-documented-as-str-to-lowercase {} {}", if ok { "ok" } else { "fail" }, xs(&format!("downcase of {:?}: want {:?}, got {}", w, want, got.tokens()))));
+        }
+    }
+
     // ---- exhaustive small scope ----
     // thorough = the property's bounds (strings ≤ 4, arguments ≤ 2, integers −6..8) for the filters whose
     // result depends on where the argument occurs; quick = one character less on one axis
